@@ -532,6 +532,55 @@ class C13(PropBase):
         toks += [str(len(sched))] + [str(x) for x in sched]
         return " ".join(toks)
 
+    def process_tree_case(self, rng):
+        """P: the REAL processor on a synthetic amd64 dump whose threads ARE decision trees: a frame in module k is unwound by CFI if
+        k's symbols load (return address and saved frame pointer taken from the cell at rsp) and by the frame pointer otherwise
+        (cell at rbp); the two cells of a node point to different children.  Scripted supplier (suspensions, all five outcomes) behind
+        one Symbolizer, the process future polled to completion (join_all polls every unfinished walk per poll = round-robin).
+        Compared with C13.Adaptive (a_rounds): per-thread module sequence, supplier call order, stats, counters."""
+        nk = rng.range(2, 5)
+        scripts = [(rng.choice([0, 0, 1, 2, 3]), rng.choice([0, 0, 0, 1, 1, 4, 3, 2])) for _ in range(nk)]
+        size = 0x10000
+        bases = [0x400000 + k * 0x100000 for k in range(nk)]
+        D = 3
+        toks = ["cpu=amd64", "os=linux", "opt=0"]
+        for k in range(nk):
+            toks.append("M=%d:%d:%s:-" % (bases[k], size, hx(("/m/k%d.so" % k).encode())))
+        nt = rng.range(1, 4)
+        tree_toks = []
+        for t in range(nt):
+            sb = 0x10000000 + t * 0x100000
+            mem = {}
+            bump = [sb + 16 * (D + 3)]
+            def fresh():
+                a = bump[0]
+                bump[0] += 16 * (D + 3)
+                return a
+            def build(depth, okaddr, erraddr):
+                """returns (tree tokens, rip for this node); fills the node's two cells"""
+                k = rng.below(nk)
+                rip = bases[k] + 0x100 + 4 * rng.below(0x400)
+                toks_ = ["k%d" % k]
+                for (cell, child_ok_addr) in ((okaddr, okaddr + 16), (erraddr, erraddr + 16)):
+                    if depth == 0 or rng.chance(1, 4):
+                        mem[cell] = cell + 32           # saved frame pointer: any readable higher address
+                        mem[cell + 8] = 0               # return address 0: the walk ends here
+                        toks_.append("d0")
+                    else:
+                        child_err = fresh()
+                        sub, crip = build(depth - 1, child_ok_addr, child_err)
+                        mem[cell] = child_err
+                        mem[cell + 8] = crip
+                        toks_ += sub
+                return toks_, rip
+            root_err = fresh()
+            ttoks, rip = build(D, sb, root_err)
+            tree_toks += ttoks
+            top = bump[0] + 64
+            words = [mem.get(a, 0) for a in range(sb, top, 8)]
+            toks.append("T=%d:%d:%s:rip=%d,rsp=%d,rbp=%d" % (t + 1, sb, hx(le64(words)), rip, sb, root_err))
+        return "P %s %d %s | %s" % (";".join("%d,%d" % sc for sc in scripts), nt, " ".join(tree_toks), " ".join(toks))
+
     def deep_threads_case(self, rng, total_min=17000, total_max=24000):
         """2..4 threads in deep recursion (thousands of frames each, tens of thousands together; stacks generated by the
         harness from deep=), each thread in its own module, modules with CFI / without symbols (frame pointers), and a
@@ -603,6 +652,9 @@ class C13(PropBase):
         for _ in range(n_q):
             cases.append(self.adaptive_case(rng))
         dist["A_adaptive_walks_explicit_schedule"] = n_q
+        for _ in range(n_q // 2):
+            cases.append(self.process_tree_case(rng))
+        dist["P_processor_on_decision_tree_dumps"] = n_q // 2
         for _ in range(n_fam):
             cases.append(self.linux_streams_case(rng, keys) + " " + self.sched_suffix(rng))
             cases.append(self.many_threads_case(rng))
@@ -704,7 +756,7 @@ class C13(PropBase):
     def oracle(self, case, ans, profile):
         if ans.startswith("P;;"):
             return "panic or hang while processing: " + ans[3:240]
-        if case[:2] in ("R ", "E ", "L ", "Q ", "A "):
+        if case[:2] in ("R ", "E ", "L ", "Q ", "A ", "P "):
             return None if ans[:1] == case[0] else "unparseable answer " + ans[:80]
         d = dict(t.split("=", 1) for t in ans.split() if "=" in t)
         if "n" not in d:
@@ -728,7 +780,7 @@ class C13(PropBase):
         return msg
 
     def nontrivial(self, case, ans):
-        if case[:2] in ("R ", "E ", "L ", "Q ", "A "):
+        if case[:2] in ("R ", "E ", "L ", "Q ", "A ", "P "):
             return len(ans) > 2
         return " thr=0 " not in ans and ans.startswith("n=")
 
